@@ -15,7 +15,7 @@ for id in $ids; do
   if ! git -C $scratch apply /verif/$d/patch.diff 2>/dev/null; then echo "$id PATCH-DOES-NOT-APPLY"; git -C /repo worktree remove --force $scratch; continue; fi
   for c in $checks; do
     out=$(VERIF_REPO=$scratch ./check $c quick 2>&1); rc=$?
-    n=$(echo "$out" | grep -c '^VIOLATION')
+    n=$(echo "$out" | grep -ac "^VIOLATION")
     if [ $rc -eq 1 ] && [ $n -gt 0 ]; then echo "$id $c CAUGHT ($n violation lines)"; else echo "$id $c MISSED rc=$rc: $(echo "$out" | tail -1 | cut -c1-120)"; fi
   done
   git -C /repo worktree remove --force $scratch; rm -rf $scratch
